@@ -11,7 +11,7 @@ from ..report import Check
 from ..terms import OutsideFragment, expr_term
 from ..wireshape import ShapeError
 from .codecs import CodecFacts, codec_facts
-from .purity import codec_state, encode_stream
+from .purity import no_result_caches, value_passthrough, codec_state, encode_stream
 
 RULES = {
     "R07.1": "codec duality: the wire-shape terms of encode and decode are equal up to direction",
@@ -80,6 +80,8 @@ def run(chk: Check) -> None:
     _tree_dispatch(chk, cf)
     _uuid_resolution(chk, cf)
     codec_state(chk, "R07.5")
+    no_result_caches(chk, "R07.5")
+    value_passthrough(chk, "R07.5")
     encode_stream(chk, "R07.5")
     from .c15 import bracket_matching
     bracket_matching(chk, "R07.6")
